@@ -282,8 +282,12 @@ def run(ctx):
         jobs.append((1, True, False, 6, False, torn, (1, 9), per_label))
     with mp.get_context("fork").Pool(min(16, os.cpu_count() or 1)) as pool:
         rres = pool.map_async(recorded_after_restart, [(2, 1), (2, 2)], chunksize=1)
+        from checks import c08_conf
+
+        cres = pool.map_async(c08_conf._job, c08_conf.cases(ctx.quick), chunksize=1)
         res = pool.map(_job, jobs, chunksize=1)
         rres = rres.get()
+        conf_problems = c08_conf.summarise(ctx, cres.get())
     n = nh = 0
     for args, k, viols in rres:
         n += k
@@ -300,6 +304,10 @@ def run(ctx):
             if sig not in seen:
                 seen.add(sig)
                 ctx.violation(sig, f"{args[:5]}: {msg}", rp)
+    if conf_problems and not seen:
+        from vf.runner import HarnessError
+
+        raise HarnessError(f"crash model does not cover what a really dying process leaves behind: {conf_problems[:3]}")
     ctx.set("evaluations", n)
     ctx.set("crash_restart_cycles", n)
     ctx.set("scenarios", nh)
